@@ -175,7 +175,7 @@ class C13Machine(RuleBasedStateMachine):
         self.spec = None      # stop this history
 
     def teardown(self):
-        if self.spec is not None and self.history and self.REC.evaluations % 20 == 0:
+        if self.spec is not None and self.history and (len(self.REC.samples) < 2 or self.REC.evaluations % 20 == 0):
             self.REC.sample({'module_text': self.text, 'history': [list(h) for h in self.history],
                              'probes': len(self.probes)})
 
